@@ -443,9 +443,10 @@ void h_open_decoder(void)
 	__CPROVER_assume(VG_TYPE_OK);
 	vg_pick_decoder_config(0);
 	vg_pick_current0();
+	vg_D.frees0 = 0;
 	r = open_decoder(reader, callback, callback_data);
 	if (r != 0 && VG_D2) { VG_CANARY("open_decoder: pass-through"); }
-	if (r == 0 && VG_D3) { VG_CANARY("open_decoder: pass-through failed, inner decoder left for close_decoder"); }
+	if (r == 0 && vg_D.frees0 == 1) { VG_CANARY("open_decoder: pass-through failed, inner decoder released again"); }
 	VG_CANARY("open_decoder");
 }
 
@@ -549,71 +550,75 @@ void h_placeholder(void)
 /* ------------------------------------------------------------------ C20: lha_reader_free ------- */
 /* Representation of the reader's header references (what the recorder vg_ref[] must equal): one reference per
    entry on the directory stack, one per entry on the deferred-symlink list, one for a re-presented current entry
-   (FAKE_DIR / DEFERRED_SYMLINK), none otherwise.  C20 demands vg_ref[i] == 0 for every i when lha_reader_free returns.
-   VG_FREE_CASE: 0 = nothing deferred and current entry not re-presented; 1 = deferred list not empty;
-   2 = current entry is a re-presented directory or deferred symlink. */
+   (FAKE_DIR / DEFERRED_SYMLINK), none otherwise.  C20 demands: every one of these references is released exactly
+   once and vg_ref[i] == 0 for every i when lha_reader_free returns - in EVERY state of the reader.
+   VG_FREE_CASE 0 is that general statement; 1 and 2 are the same harness restricted to "something is still deferred"
+   and "the current entry is a re-presented one" (the two states the unrepaired code leaked in), kept as separate groups. */
 #ifndef VG_FREE_CASE
 #define VG_FREE_CASE 0
 #endif
 void h_free(void)
 {
 	int c = nondet_int();
-	size_t cur = vg_pick_index(), dl = vg_pick_index();
+	size_t cur = vg_pick_index();
+	_Bool fake;
 	vg_havoc();
 	__CPROVER_assume(VG_TYPE_OK);
-	__CPROVER_assume(0 <= c && c <= 3);
+	__CPROVER_assume(0 <= c && c <= 2);
 	vg_pick_decoder_config(c);
 	vg_D.frees0 = 0; vg_D.frees1 = 0; vg_B.frees = 0; vg_M.rd_live = 1;
+	vg_n2 = nondet_size_t(); vg_k2 = 0;
+	__CPROVER_havoc_object(vg_seq2);
 	vg_rd.dir_stack = (vg_n == 0) ? NULL : &vg_h[vg_pick_index()];
-	__CPROVER_assume(VG_LIST_SEQ(vg_rd.dir_stack));
+	vg_rd.deferred_symlinks = (vg_n2 == 0) ? NULL : &vg_h[vg_pick_index()];
+	/* the directory stack and the deferred list are well-formed lists of pool headers without a common entry */
+	__CPROVER_assume(VG_LIST_SEQ(vg_rd.dir_stack) && VG_LIST_SEQ2(vg_rd.deferred_symlinks) && VG_SEQS_DISJOINT);
+	/* a re-presented current entry is on neither of them */
+	fake = vg_rd.curr_file_type == CURR_FILE_FAKE_DIR || vg_rd.curr_file_type == CURR_FILE_DEFERRED_SYMLINK;
+	vg_rd.curr_file = fake ? &vg_h[cur] : (nondet_bool() ? NULL : &vg_h[vg_pick_index()]);
+	__CPROVER_assume(fake ==> (VG_SEQ_HAS_NOT(cur) && VG_SEQ2_HAS_NOT(cur)));
 	__CPROVER_assume(vg_X < VG_NH && vg_J < VG_NH);
-	/* references held on entry: 1 for each stack entry ... */
-	__CPROVER_assume(VG_FREE_INV);           /* vg_k == 0 */
-#if VG_FREE_CASE == 0
-	vg_rd.deferred_symlinks = NULL;
-	__CPROVER_assume(vg_rd.curr_file_type != CURR_FILE_FAKE_DIR && vg_rd.curr_file_type != CURR_FILE_DEFERRED_SYMLINK);
-	/* ... and none on any other header */
-	__CPROVER_assume(VG_SEQ_HAS_NOT(vg_X) ==> vg_ref[vg_X] == 0);
-#elif VG_FREE_CASE == 1
-	/* one deferred symlink (pool header dl, not on the directory stack) is still waiting */
-	__CPROVER_assume(VG_SEQ_HAS_NOT(dl));
-	vg_rd.deferred_symlinks = &vg_h[dl];
-	vg_h[dl]._next = NULL;
-	__CPROVER_assume(vg_rd.curr_file_type != CURR_FILE_FAKE_DIR && vg_rd.curr_file_type != CURR_FILE_DEFERRED_SYMLINK);
-	vg_X = dl;
-	__CPROVER_assume(vg_ref[vg_X] == 1);
-#else
-	/* the current entry (pool header cur, on neither list) is one the reader re-presented and holds a reference on */
-	vg_rd.deferred_symlinks = NULL;
-	__CPROVER_assume(vg_rd.curr_file_type == CURR_FILE_FAKE_DIR || vg_rd.curr_file_type == CURR_FILE_DEFERRED_SYMLINK);
-	__CPROVER_assume(VG_SEQ_HAS_NOT(cur));
-	vg_rd.curr_file = &vg_h[cur];
-	vg_X = cur;
-	__CPROVER_assume(vg_ref[vg_X] == 1);
+	/* references held on entry: 1 for each stack entry, 1 for each deferred entry, 1 for a re-presented current entry, */
+	__CPROVER_assume(VG_FREE_INV && VG_FREE2_INV);           /* vg_k == 0, vg_k2 == 0 */
+	__CPROVER_assume(fake ==> vg_ref[cur] == 1);
+	/* and none on any other header */
+	__CPROVER_assume((VG_SEQ_HAS_NOT(vg_X) && VG_SEQ2_HAS_NOT(vg_X) && !(fake && vg_X == cur)) ==> vg_ref[vg_X] == 0);
+	vg_f0 = fake ? 1u : 0u;
+#if VG_FREE_CASE == 1
+	__CPROVER_assume(vg_n2 > 0);
+#elif VG_FREE_CASE == 2
+	__CPROVER_assume(fake);
 #endif
-	vg_refX0 = vg_ref[vg_X];
 	lha_reader_free(&vg_rd);
 	__CPROVER_assert(!vg_D.live0 && !vg_D.live1 && vg_D.frees0 == (c != 0) && vg_D.frees1 == (c == 2),
 	                 "C20: every decoder of the current entry is freed exactly once");
 	__CPROVER_assert(vg_B.frees == 1 && !vg_M.rd_live, "C20: the basic reader and the reader structure are released exactly once");
-	__CPROVER_assert(vg_hfree_calls == vg_n + (VG_FREE_CASE == 0 ? 0u : 1u),
-	                 "C20: exactly one release per reference held (directory-stack entries, plus the deferred / re-presented entry of this case)");
+	__CPROVER_assert(vg_hfree_calls == vg_n + vg_n2 + vg_f0,
+	                 "C20: exactly one release per reference held (directory-stack entries, deferred entries, a re-presented current entry)");
 	__CPROVER_assert(vg_J < vg_n ==> vg_ref[vg_seq[vg_J]] == 0, "C20: the reference on every directory-stack entry is released");
+	__CPROVER_assert(vg_J < vg_n2 ==> vg_ref[vg_seq2[vg_J]] == 0, "C20: the reference on every deferred symlink is released");
+	__CPROVER_assert((fake && vg_X == cur) ==> vg_ref[vg_X] == 0, "C20: the reference on a re-presented current entry is released (instance vg_X == current entry)");
 	__CPROVER_assert(vg_ref[vg_X] == 0, "C20: after lha_reader_free the reader holds no reference on any header");
+	if (vg_n > 0 && vg_n2 > 0 && fake) { VG_CANARY("lha_reader_free: stack, deferred list and re-presented entry all present"); }
 	VG_CANARY("lha_reader_free");
 }
 
 /* ------------------------------------------------------------------ C15: lha_reader_next_file -- */
 /* VG_NEXT_CASE (a complete case split on the state the call starts in) 0: archive member; 3: start or end; 2: a re-presented
    directory is current; 1: a re-presented deferred symlink is current (the reference the reader holds on the entry it
-   leaves must be released: C20). */
+   leaves must be released: C20; the unrepaired code did not). */
 #ifndef VG_NEXT_CASE
 #define VG_NEXT_CASE 0
 #endif
 #if VG_NEXT_CASE == 0 || VG_NEXT_CASE == 2
 #define VG_BRANCH_CANARY(x) VG_CANARY(x)
+#define VG_DEFERRED_CANARY(x) VG_CANARY(x)
+#elif VG_NEXT_CASE == 1
+#define VG_BRANCH_CANARY(x) ((void) 0)     /* a deferred symlink is current: the stack is empty and the archive is at its end */
+#define VG_DEFERRED_CANARY(x) VG_CANARY(x)
 #else
 #define VG_BRANCH_CANARY(x) ((void) 0)     /* with empty lists (start / end) these branches do not exist */
+#define VG_DEFERRED_CANARY(x) ((void) 0)
 #endif
 void h_next_file(void)
 {
@@ -625,7 +630,7 @@ void h_next_file(void)
 	vg_havoc();
 	vg_pick_strings();
 	__CPROVER_assume(VG_TYPE_OK);
-	__CPROVER_assume(0 <= c && c <= 3);
+	__CPROVER_assume(0 <= c && c <= 2);
 	vg_pick_decoder_config(c);
 	vg_D.frees0 = 0; vg_D.frees1 = 0;
 	vg_rd.curr_file = nondet_bool() ? NULL : &vg_h[vg_pick_index()];
@@ -692,7 +697,7 @@ void h_next_file(void)
 			                 "C10/C15: a deferred symlink is presented only after every archive member and every pending directory");
 			__CPROVER_assert(def0_next != NULL ==> VG_PLEN(VG_IDX(r)) >= VG_PLEN(VG_IDX(def0_next)),
 			                 "C10: longest path first: the entry presented is at least as long as the next one");
-			if (def0_next != NULL) { VG_BRANCH_CANARY("next_file: deferred symlink presented, more waiting"); }
+			if (def0_next != NULL) { VG_DEFERRED_CANARY("next_file: deferred symlink presented, more waiting"); }
 		} else {
 			__CPROVER_assert(r == NULL && vg_rd.curr_file_type == CURR_FILE_EOF, "C15: nothing left: end of archive");
 			VG_CANARY("next_file: end reached");
@@ -724,6 +729,7 @@ void h_close_decoder(void)
 	int c = nondet_int();
 	LHAReader snap;
 	vg_havoc();
+	/* c == 3 (inner decoder live, decoder NULL) is no state of the reader any more; close_decoder copes with it all the same */
 	__CPROVER_assume(0 <= c && c <= 3);
 	vg_pick_decoder_config(c);
 	vg_D.frees0 = 0; vg_D.frees1 = 0;
@@ -737,8 +743,10 @@ void h_close_decoder(void)
 	VG_CANARY("close_decoder");
 }
 
-/* lha_reader_read.  VG_READ_CASE 0: nothing open, or a decoder open (D0 / D1 / D2).  1: an earlier attempt to open
-   a decoder for this member failed after the inner decoder had been created (D3: MacBinary pass-through failed). */
+/* lha_reader_read.  VG_READ_CASE 0: one call from every decoder state of the reader (nothing open, plain decoder,
+   pass-through on top of the inner decoder).  1: two calls in a row on a member for which nothing is open yet - the
+   history "first attempt fails to open a decoder, caller reads again" (the unrepaired open_decoder left the inner
+   decoder behind when the MacBinary pass-through failed, and the second call overwrote it). */
 #ifndef VG_READ_CASE
 #define VG_READ_CASE 0
 #endif
@@ -750,13 +758,14 @@ void h_read(void)
 #if VG_READ_CASE == 0
 	__CPROVER_assume(0 <= c && c <= 2);
 #else
-	c = 3;
+	c = 0;
 #endif
 	vg_pick_decoder_config(c);
 	vg_pick_current0();
 	__CPROVER_assume(vg_rd.curr_file_type != CURR_FILE_NORMAL ==> c == 0);
 	__CPROVER_assume(c != 0 ==> VG_DVIEW);
 	__CPROVER_assume(len <= sizeof(vg_ubuf));
+	vg_D.frees0 = 0; vg_D.frees1 = 0;
 	total0 = vg_D.total; opens0 = vg_D.opens; t0 = vg_rd.curr_file_type;
 	r = lha_reader_read(&vg_rd, vg_ubuf, len);
 	__CPROVER_assert(r <= len, "C08/C15: never more bytes than asked for");
@@ -764,10 +773,25 @@ void h_read(void)
 	                 "C15: entries the reader re-presents (and no entry at all) have no data: 0, nothing opened");
 	__CPROVER_assert((c == 1 || c == 2) ==> (vg_D.opens == opens0 && (c == 1 ? VG_D1 : VG_D2)),
 	                 "C15/C20: an open decoder is reused: at most one decoder per entry");
-	__CPROVER_assert(c == 0 ==> (vg_D.opens - opens0 <= 1 && (VG_D0 || VG_D1 || VG_D2 || VG_D3)), "C15: the first read opens at most one decoder");
+	__CPROVER_assert(c == 0 ==> (vg_D.opens - opens0 <= 1 && (VG_D0 || VG_D1 || VG_D2)),
+	                 "C15/C20: the first read opens at most one decoder and leaves a state of the reader (no half-open decoder)");
+	__CPROVER_assert(vg_D.frees0 == ((vg_D.opens != opens0 && VG_D0) ? 1u : 0u) && vg_D.frees1 == 0,
+	                 "C20: a decoder is released here only when the pass-through on top of it could not be built");
 	__CPROVER_assert((c == 1 && vg_G >= total0 && vg_G - total0 < r) ==> vg_ubuf[vg_G - total0] == vg_pbyte,
 	                 "C15: the bytes handed to the caller are the next bytes of the member's produced stream, in order");
 	__CPROVER_assert(c == 1 ==> vg_D.total == total0 + r, "C15: the member's stream position advances by exactly the bytes returned");
+#if VG_READ_CASE == 1
+	{
+		_Bool was_open = !VG_D0; unsigned opens1 = vg_D.opens; size_t r2;
+		if (VG_D0 && vg_D.opens != opens0) { VG_CANARY("lha_reader_read: second read after a failed pass-through"); }
+		/* the stub lha_basic_reader_decode asserts that no live inner decoder is overwritten */
+		r2 = lha_reader_read(&vg_rd, vg_ubuf, len);
+		__CPROVER_assert(r2 <= len && (VG_D0 || VG_D1 || VG_D2), "C15/C20: a second read leaves a state of the reader again");
+		__CPROVER_assert(was_open ==> vg_D.opens == opens1, "C15/C20: once a decoder is open, further reads reuse it");
+		__CPROVER_assert((vg_D.live0 ? 1u : 0u) + vg_D.frees0 == vg_D.opens - opens0,
+		                 "C20: every inner decoder created for this member is either still attached or has been released");
+	}
+#endif
 	VG_CANARY("lha_reader_read");
 }
 
@@ -923,8 +947,6 @@ void h_extract_symlink(void)
 	                 "frame: no other reference, no target byte changes; no directory is made, no metadata applied");
 	__CPROVER_assert(vg_D.opens == dopens && vg_D.frees0 == df0 && vg_D.frees1 == df1 && vg_D.mon_calls == dm0 && vg_D.pass_calls == dp0 &&
 	                 vg_B.next_calls == bn0 && vg_B.frees == bf0, "frame: no decoder or basic-reader call is made");
-	__CPROVER_assert((vg_F.symlinks != sl0 || (filename == NULL && vg_M.tmp_allocs == ta0)) ==> !vg_M.tmp_live,
-	                 "C20: temporary path released when the link is created at once or no name could be built");
 #else
 	__CPROVER_assert(!vg_M.tmp_live, "C20: the temporary path string is released on every way out of extract_symlink");
 #endif
